@@ -24,6 +24,10 @@ RULE = ("cell = (target kind, replacement kind[, second replacement kind], entry
         "@asynq function, new_callable=MagicMock / a callable class (as documented, and with the autospec=None spelling), "
         "non-callable value; entry points patch('dotted.name') and patch.object(owner, 'name'); activation: with-block, decorator "
         "on a test function, decorator on a test class, start()/stop(), start() + patch.stopall(); exit: normal / exception; "
+        "every nested / sequential history also with ONE replacement object handed to both patches (same target, and the target "
+        "plus a second name bound to the same original), plus a two-name control with two fresh replacements and the two-name "
+        "history start, start, stop-first, stop-second; while any patch is active all four conventions are made through every "
+        "patched name, also after the inner / first patch ended; "
         "history: single, nested patch of the same target, two sequential patches (first replacement from default / function / "
         "bound method / __slots__ callable / non-callable, second from all kinds; thorough: all pairs), one patcher object used twice (thorough: the "
         "second patch of nested / sequential histories also in every other entry point x activation style). All cells are "
@@ -57,14 +61,13 @@ PAIR_REPLS = [r for r in REPLS if r not in ("new_callable_mock", "new_callable_c
 ENTRIES = ["dotted", "object"]
 ACTIVATIONS = ["with", "decorator", "classdecorator", "startstop", "stopall"]
 EXITS = ["normal", "exception"]
-HISTORIES = ["single", "same_patcher_twice", "nested", "sequential"]
+HISTORIES = ["single", "same_patcher_twice", "nested", "sequential"]  # + overlap_fifo in the shared / alias variants
 CONVS = ["sync", "asynq_value", "yield", "asyncio"]
 CONV_ARGS = {
     "sync": (("s1", "s2"), {"k": "s3"}),
     "asynq_value": (("v1",), {"b": "v2"}),
     "yield": (("y1", "y2"), {}),
     "asyncio": (("i1",), {"k": "i3"}),
-    "mid": (("m1",), {"k": "m3"}),
 }
 SKIPPED = {
     "function_like_target on targets that are not classmethods/staticmethods": "identical to the 'function' replacement there (duplicate cells)",
@@ -165,16 +168,48 @@ def make_world(register=True):
     def plain(self, a, b=DB, *, k=DK):
         return orig("plain", a, b, k)
 
+    limit = ("limit", 10)
+    # every target also exists under a second name (e.g. `from storage import fetch` in another module)
     cls = type("C19Cls", (object,), {"method": method, "cmethod": cmethod, "smethod": smethod, "plain": plain,
-                                     "limit": ("limit", 10), "__module__": MODNAME})
+                                     "limit": limit, "method_alias": method, "cmethod_alias": cmethod,
+                                     "smethod_alias": smethod, "plain_alias": plain, "limit_alias": limit,
+                                     "__module__": MODNAME})
     mod = types.ModuleType(MODNAME)
     mod.fn = fn
+    mod.fn_alias = fn
     mod.Cls = cls
     mod.inst = cls()
     w.mod, w.cls, w.inst = mod, cls, mod.inst
     if register:
         sys.modules[MODNAME] = mod
     return w
+
+
+class Site(object):
+    """one patched place: owner object, attribute name, dotted name, getter as a caller reaches it, originals"""
+
+    def __init__(self, w, tk, alias=False):
+        owner, name, dotted, get = target_info(w, tk)
+        if alias:
+            name, dotted = name + "_alias", dotted + "_alias"
+            path = dotted[len(MODNAME) + 1:].split(".")
+            if tk in ("method", "cm_inst", "sm_inst", "plain_method"):
+                path = ["inst", path[-1]]  # reached through the instance, patched on the class
+
+            def get(path=path):
+                o = w.mod
+                for a in path:
+                    o = getattr(o, a)
+                return o
+        self.tk, self.owner, self.name, self.dotted, self.get, self.alias = tk, owner, name, dotted, get, alias
+        self.original = vars(owner).get(name, None)
+        self.class_original = vars(w.cls).get(name, None)
+
+    def installed(self):
+        return vars(self.owner).get(self.name, None)
+
+    def label(self):
+        return "alias " if self.alias else ""
 
 
 def target_info(w, tk):
@@ -351,7 +386,7 @@ def installed_obj(w, tk):
 def call_conv(conv, get, args, kwargs, stats):
     L = lib()
     stats["calls"] = stats.get("calls", 0) + 1
-    if conv in ("sync", "mid"):
+    if conv == "sync":
         return get()(*args, **kwargs)
     if conv == "asynq_value":
         return get().asynq(*args, **kwargs).value()
@@ -419,26 +454,31 @@ def reference(tk, rk):
 def features(cell):
     f = ["target:" + cell["target"], "repl:" + cell["repl"], "entry:" + cell["entry"], "act:" + cell["act"],
          "exit:" + cell["exit"], "hist:" + cell["hist"]]
-    for k in ("repl2", "entry2", "act2"):
+    for k in ("repl2", "entry2", "act2", "second"):
         if cell.get(k):
             f.append(k + ":" + cell[k])
+    if cell.get("shared"):
+        f.append("shared-replacement")
     return f
 
 
 def describe(cell):
     r = cell["repl"] + ("+" + cell["repl2"] if cell.get("repl2") else "")
+    if cell.get("shared"):
+        r += " (one object for both patches)"
+    if cell.get("second") == "alias":
+        r += " [second patch on the target's alias name]"
     e = {"dotted": "patch('dotted')", "object": "patch.object"}
     return "%s <- %s / %s / %s / exit %s / %s" % (
         cell["target"], r, e[cell["entry"]] + ("+" + e[cell["entry2"]] if cell.get("entry2") else ""),
         cell["act"] + (">" + cell["act2"] if cell.get("act2") else ""), cell["exit"], cell["hist"])
 
 
-def make_patcher(w, tk, repl, entry):
+def make_patcher(site, repl, entry):
     L = lib()
-    owner, name, dotted, _ = target_info(w, tk)
     if entry == "dotted":
-        return L.patch(dotted, **repl.kw)
-    return L.patch.object(owner, name, **repl.kw)
+        return L.patch(site.dotted, **repl.kw)
+    return L.patch.object(site.owner, site.name, **repl.kw)
 
 
 def run_active(patchers, act, exc, inside, after_outer, mid, stats):
@@ -583,57 +623,67 @@ def _run_cell(cell, stats):
         viol.append((sig, "%s: %s" % (describe(cell), msg), list(extra)))
 
     w = make_world()
-    owner, name, dotted, get = target_info(w, tk)
-    original = vars(owner).get(name, None)
-    class_original = vars(w.cls).get(name, None)
+    site1 = Site(w, tk)
+    site2 = Site(w, tk, alias=True) if cell.get("second") == "alias" else site1
     r1 = Repl(cell["repl"], tk)
-    r2 = Repl(cell["repl2"], tk) if cell.get("repl2") else None
+    if cell.get("shared"):
+        r2 = r1  # the very same replacement object is handed to both patches
+    elif cell.get("repl2"):
+        r2 = Repl(cell["repl2"], tk)
+    elif hist in ("nested", "sequential", "overlap_fifo"):
+        r2 = Repl(cell["repl"], tk)  # a second, fresh replacement of the same kind
+    else:
+        r2 = None
     is_async = tk in ASYNC_TARGETS
 
-    def check_restored(when):
+    def check_restored(site, when):
+        owner, name = site.owner, site.name
         now = vars(owner).get(name, None)
         if tk == "inst_method":
             if name in vars(owner):
-                v("not-restored", "%s: the instance still carries the patched attribute (%s)" % (when, type(now).__name__))
-            if vars(w.cls).get(name) is not class_original:
+                v("not-restored", "%s: the instance still carries the patched %sattribute (%s)" % (when, site.label(), type(now).__name__))
+            if vars(w.cls).get(name) is not site.class_original:
                 v("not-restored", "%s: the class attribute behind the patched instance changed" % when)
-        elif now is not original:
+        elif now is not site.original:
             v("not-restored", "%s: vars(owner)[%r] is %s, not the original object" % (
                 when, name, "missing" if name not in vars(owner) else "a " + type(now).__name__))
 
-    def make_inside(repl, convs=CONVS):
+    def make_inside(repl, site, convs=CONVS):
+        name = site.name
+
         def inside():
-            cur = installed_obj(w, tk)
+            cur = site.installed()
             if not repl.is_callable:
                 if cur is not repl.value:
                     v("not-installed-as-is", "non-callable replacement: vars(owner)[%r] is a %s, not the given object" % (name, type(cur).__name__))
                 return
-            if cur is None or cur is original:
-                v("not-installed", "the attribute is still %s while the patch is active" % ("the original" if cur is original else "missing"))
+            if cur is None or cur is site.original:
+                v("not-installed", "the %sattribute is still %s while the patch is active" % (site.label(), "the original" if cur is site.original else "missing"))
                 return
             repl.prepare(cur)
             exp = reference(tk, repl.kind)
             n = len(repl.read(cur))
             for conv in convs:
-                if conv != "sync" and conv != "mid" and not is_async:
+                if conv != "sync" and not is_async:
                     continue
                 args, kwargs = CONV_ARGS[conv]
-                out = _outcome(lambda: call_conv(conv, get, args, kwargs, stats))
-                log = repl.read(installed_obj(w, tk))
+                out = _outcome(lambda: call_conv(conv, site.get, args, kwargs, stats))
+                log = repl.read(site.installed())
                 new = log[n:]
                 n = len(log)
                 e_entry, e_out = exp[conv]
                 f = "conv:" + conv
+                lab = site.label() + conv
                 if out[0] == "err" and e_out[0] == "ok":
-                    v("convention-raised", "%s raised %s: %s" % (conv, out[1], out[2]), f)
+                    v("convention-raised", "%s raised %s: %s" % (lab, out[1], out[2]), f)
                     continue
                 if len(new) != 1:
-                    v("replacement-not-reached", "%s: the replacement was called %d times (expected once)" % (conv, len(new)), f)
+                    v("replacement-not-reached", "%s: the replacement was called %d times (expected once)" % (lab, len(new)), f)
                 elif canon_entry(w, new[0]) != e_entry:
                     v("wrong-arguments", "%s: the replacement received %r, a plain call of the directly installed replacement passes %r"
-                      % (conv, canon_entry(w, new[0]), e_entry), f)
+                      % (lab, canon_entry(w, new[0]), e_entry), f)
                 if out != e_out:
-                    v("result-mismatch", "%s returned %r, expected %r" % (conv, out[1:], e_out[1:]), f)
+                    v("result-mismatch", "%s returned %r, expected %r" % (lab, out[1:], e_out[1:]), f)
             if w.olog:
                 v("original-ran", "the original body ran while patched: %r" % (w.olog,))
                 del w.olog[:]
@@ -651,55 +701,95 @@ def _run_cell(cell, stats):
             v("patch-activation-failed", "%sactivating / ending the patch raised %s: %s" % (label, type(e).__name__, str(e)[:160]))
             lib().mock.patch.stopall()
 
-    def construct(repl, how=None):
+    def construct(repl, site, how=None):
         try:
-            return make_patcher(w, tk, repl, how or entry)
+            return make_patcher(site, repl, how or entry)
         except Exception as e:
             v("patch-construction-failed", "creating the patcher for replacement %s raised %s: %s" % (repl.kind, type(e).__name__, str(e)[:160]))
             return None
 
+    def both_inside():
+        # every patch that is active is exercised: the outer / first target as well as the inner / second one
+        if site2 is not site1:
+            make_inside(r1, site1)()
+        make_inside(r2, site2)()
+
+    def restored_all(when):
+        check_restored(site1, when)
+        if site2 is not site1:
+            check_restored(site2, when)
+
     if hist == "single":
-        p = construct(r1)
+        p = construct(r1, site1)
         if p is not None:
-            activate([p], make_inside(r1))
-            check_restored("after the patch ended")
+            activate([p], make_inside(r1, site1))
+            check_restored(site1, "after the patch ended")
     elif hist == "same_patcher_twice":
-        p = construct(r1)
+        p = construct(r1, site1)
         if p is not None:
-            activate([p], make_inside(r1), label="first use: ")
-            check_restored("after the first use")
-            activate([p], make_inside(r1), label="second use: ")
-            check_restored("after the second use")
+            activate([p], make_inside(r1, site1), label="first use: ")
+            check_restored(site1, "after the first use")
+            activate([p], make_inside(r1, site1), label="second use: ")
+            check_restored(site1, "after the second use")
     elif hist == "sequential":
-        p1, p2 = construct(r1), construct(r2, entry2)
+        p1, p2 = construct(r1, site1), construct(r2, site2, entry2)
         if p1 is not None:
-            activate([p1], make_inside(r1), label="first patch: ")
-            check_restored("after the first patch")
+            activate([p1], make_inside(r1, site1), label="first patch: ")
+            restored_all("after the first patch")
         if p2 is not None:
-            activate([p2], make_inside(r2), label="second patch: ", style=act2)
-            check_restored("after the second patch")
+            activate([p2], make_inside(r2, site2), label="second patch: ", style=act2)
+            restored_all("after the second patch")
     elif hist == "nested":
-        p1, p2 = construct(r1), construct(r2, entry2)
+        p1, p2 = construct(r1, site1), construct(r2, site2, entry2)
         state = {}
         # patch.stopall() as the inner ending also stops an outer patch that was start()ed: no intermediate state then
         mid_observable = not (act2 == "stopall" and act in ("startstop", "stopall"))
 
         def after_outer():
-            state["outer"] = installed_obj(w, tk)
+            state["outer"] = site1.installed()
 
         def mid():
             if "outer" not in state or not mid_observable:
                 return
-            now = installed_obj(w, tk)
+            now = site1.installed()
             if now is not state["outer"]:
-                v("inner-restore-wrong", "after the inner patch ended vars(owner)[%r] is a %s, not the outer replacement" % (name, type(now).__name__))
+                v("inner-restore-wrong", "after the inner patch ended vars(owner)[%r] is a %s, not the outer replacement" % (site1.name, type(now).__name__))
                 return
-            if r1.is_callable:
-                make_inside(r1, convs=["mid"])()
+            if site2 is not site1:
+                check_restored(site2, "after the inner patch ended")
+            # the outer patch is still active: every convention must keep reaching its replacement
+            make_inside(r1, site1)()
 
         if p1 is not None and p2 is not None:
-            activate([p1, p2], make_inside(r2), after_outer, mid)
-            check_restored("after both patches ended")
+            activate([p1, p2], both_inside, after_outer, mid)
+            restored_all("after both patches ended")
+    elif hist == "overlap_fifo":
+        # two targets, start/start, the FIRST patch is stopped first: the second must stay fully working
+        p1, p2 = construct(r1, site1), construct(r2, site2, entry2)
+        if p1 is not None and p2 is not None:
+            stats["calls"] = stats.get("calls", 0) + 2
+            started = []
+            try:
+                try:
+                    for p in (p1, p2):
+                        p.start()
+                        started.append(p)
+                    both_inside()
+                    if exc:
+                        raise Boom()
+                finally:
+                    if started:
+                        p1.stop()
+                        check_restored(site1, "after the first patch was stopped")
+                    if len(started) == 2:
+                        make_inside(r2, site2)()
+                        p2.stop()
+            except Boom:
+                pass
+            except Exception as e:
+                v("patch-activation-failed", "starting / stopping raised %s: %s" % (type(e).__name__, str(e)[:160]))
+                lib().mock.patch.stopall()
+            restored_all("after both patches were stopped")
     else:
         raise ValueError(hist)
     return viol
@@ -721,19 +811,30 @@ def first_repls(tier):
     return PAIR_REPLS if tier == "thorough" else QUICK_FIRST
 
 
+# replacement kinds where the caller hands ONE object to patch(): these can be shared by two patches
+SHAREABLE = ["function", "function_like_target", "boundmethod", "callable_obj", "callable_slots", "asynq_fn", "noncallable"]
+# (second target, shared object) variants of the nested / sequential / overlap_fifo histories
+VARIANTS = [("same", True), ("alias", True), ("alias", False)]
+
+
 def cells_of(job):
     tk, hist, r1 = job["target"], job["hist"], job["repl"]
-    seconds = [None] if hist in ("single", "same_patcher_twice") else job["repl2s"]
+    seconds = job.get("repl2s") or [None]
     mixed = bool(job.get("mixed"))
+    acts = ["startstop"] if hist == "overlap_fifo" else ACTIVATIONS
     for r2 in seconds:
         for entry in ENTRIES:
-            for act in ACTIVATIONS:
+            for act in acts:
                 for entry2 in (ENTRIES if mixed else [None]):
                     for act2 in (ACTIVATIONS if mixed else [None]):
                         for ex in EXITS:
                             c = {"target": tk, "repl": r1, "entry": entry, "act": act, "exit": ex, "hist": hist}
                             if r2:
                                 c["repl2"] = r2
+                            if job.get("second"):
+                                c["second"] = job["second"]
+                            if job.get("shared"):
+                                c["shared"] = True
                             if mixed:
                                 c["entry2"] = entry2
                                 c["act2"] = act2
@@ -752,6 +853,18 @@ def jobs(tier, seed):
                 for r1 in first_repls(tier):
                     if repl_applicable(r1, tk):
                         yield {"target": tk, "hist": hist, "repl": r1, "repl2s": seconds}
+    # both patches use the very same replacement object (same target / the target's second name), and the
+    # two-names control with two fresh replacements of one kind
+    for second, shared in VARIANTS:
+        for hist in ("nested", "sequential", "overlap_fifo"):
+            if hist == "overlap_fifo" and second == "same":
+                continue  # unittest.mock only supports innermost-first for one target
+            for tk in TARGETS:
+                for r1 in (SHAREABLE if shared else PAIR_REPLS):
+                    if repl_applicable(r1, tk):
+                        yield {"target": tk, "hist": hist, "repl": r1, "second": second, "shared": shared}
+                        if tier == "thorough" and hist != "overlap_fifo":
+                            yield {"target": tk, "hist": hist, "repl": r1, "second": second, "shared": shared, "mixed": True}
     if tier == "thorough":
         # second patch with its own entry point and activation style: nested = inner activated inside the outer's
         # body (e.g. decorator outside, with-block inside); sequential = second patch in another style
@@ -784,6 +897,9 @@ def run(job, env):
         if is_nontrivial(cell):
             out["nontrivial"] += 1
         key = "cells:" + cell["hist"] + (" (second patch in its own style)" if cell.get("act2") else "")
+        if cell.get("second") or cell.get("shared"):
+            key += " [%s, %s]" % ("same target" if cell.get("second") != "alias" else "second patch on the alias name",
+                                  "one shared replacement object" if cell.get("shared") else "two fresh replacements")
         cnt[key] = cnt.get(key, 0) + 1
         for sig, msg, extra in viol:
             cnt["viol:" + sig] = cnt.get("viol:" + sig, 0) + 1
@@ -806,7 +922,13 @@ def finish(acc, tier):
     return {"bounds": {
         "targets": TARGETS, "replacements": REPLS, "second replacement (nested / sequential)": PAIR_REPLS,
         "first replacement (nested / sequential)": first_repls(tier),
-        "entry points": ENTRIES, "activations": ACTIVATIONS, "exits": EXITS, "histories": HISTORIES,
+        "entry points": ENTRIES, "activations": ACTIVATIONS, "exits": EXITS, "histories": HISTORIES + ["overlap_fifo"],
+        "shared-replacement variants of nested / sequential / overlap_fifo": {
+            "variants": ["same target, both patches get the very same replacement object",
+                         "target and its alias name, both patches get the very same replacement object",
+                         "target and its alias name, two fresh replacements of one kind (control)"],
+            "replacement kinds that can be shared": SHAREABLE,
+            "overlap_fifo": "two names, start(), start(), the first patch is stopped first (start/stop activation only)"},
         "second patch of nested / sequential histories": (
             "same entry point and activation as the first (stacked with-blocks / stacked decorators / start,start,stop,stop / "
             "start,start,stopall)" + ("; plus every entry point x activation pair, the inner patch activated inside the outer's body"
